@@ -97,8 +97,8 @@ class Run:
         self.tables = []
         self.notes = []
 
-    def add_obligation(self, oid, status, kind, backend="", detail=None):
-        self.obligations[oid] = {"status": status, "kind": kind, "backend": backend, "detail": detail}
+    def add_obligation(self, oid, status, kind, backend="", detail=None, sha=None):
+        self.obligations[oid] = {"status": status, "kind": kind, "backend": backend, "detail": detail, "sha": sha}
 
 
 def write_replay(pid, oid, payload):
@@ -116,7 +116,7 @@ def check_property(pid, tier, seed, jobs=None):
     mod = property_module(pid)
     run = Run(pid, tier, seed)
     ledger = load_ledger()
-    cfg = {"timeout_ms": 20000 if tier == "quick" else 60000, "tier": tier, "seed": seed}
+    cfg = {"timeout_ms": 8000 if tier == "quick" else 60000, "tier": tier, "seed": seed}
     contracts = [c for c in contract_mod.BY_PROPERTY.get(pid, []) if not c.model_only]
     lemmas = contract_mod.LEMMAS.get(pid, [])
     nproc = jobs or min(16, max(1, len(contracts) + len(lemmas)))
@@ -168,11 +168,25 @@ def check_property(pid, tier, seed, jobs=None):
                     st = "unknown"  # some path was not explored: nothing is claimed for this function
                     a = dict(a, failing={"reason": "function partly out of reach: " + "; ".join(r["out_of_reach"])[:200]})
                 backend = "+".join(sorted(a["backends"]))
+                sha = r.get("combined_sha256")
+                led = ledger.get(oid)
+                led_status = led.get("status") if isinstance(led, dict) else led
+                led_sha = led.get("sha") if isinstance(led, dict) else None
                 if st == "discharged":
-                    run.add_obligation(oid, "discharged", "P", backend)
+                    run.add_obligation(oid, "discharged", "P", backend, sha=sha)
                 elif st == "unknown":
-                    run.add_obligation(oid, "undecided", "P", backend, a["failing"])
-                    run.undecided.append(oid)
+                    f = a["failing"] or {}
+                    if led_status == "discharged" and led_sha is not None and sha is not None and led_sha != sha and f.get("backend") and not r["out_of_reach"]:
+                        # discharged on the unchanged tree, the code it depends on has changed, and it no longer goes through:
+                        # reported with the solver's reason attached (no input available)
+                        payload = {"property": pid, "obligation": oid, "function": c.func, "file": c.file, "kind": "no-failing-input-found",
+                                   "solver": f, "note": "obligation was discharged on the baseline tree; the source of the function (or of an inlined callee) changed and the obligation is no longer discharged"}
+                        path = write_replay(pid, oid, payload)
+                        run.add_obligation(oid, "refuted-unreplayed", "P", backend, {"replay": path}, sha=sha)
+                        run.violations.append({"obligation": oid, "replay": path, "what": f"{fname}: {label} no longer discharged after a source change ({str(f.get('reason'))[:120]})", "no_input": True})
+                    else:
+                        run.add_obligation(oid, "undecided", "P", backend, a["failing"], sha=sha)
+                        run.undecided.append(oid)
                 else:
                     f = a["failing"] or {}
                     rep = replay_mod.replay_counterexample(c, f.get("counterexample"), module=mod) if not f.get("no_model") else {"status": "no-model", "failures": []}
@@ -184,7 +198,7 @@ def check_property(pid, tier, seed, jobs=None):
                         path = write_replay(pid, oid, payload)
                         run.add_obligation(oid, "refuted", "P", backend, {"replay": path, "native": rep["failures"]})
                         run.violations.append({"obligation": oid, "replay": path, "what": f"{fname}: {label} fails natively: {rep['failures'][:2]}", "no_input": False})
-                    elif ledger.get(oid) == "discharged" or f.get("no_model"):
+                    elif led_status == "discharged" or f.get("no_model"):
                         payload["kind"] = "no-failing-input-found"
                         path = write_replay(pid, oid, payload)
                         run.add_obligation(oid, "refuted-unreplayed", "P", backend, {"replay": path, "native": rep})
@@ -339,7 +353,7 @@ def do_baseline(pids):
         for k in [k for k in ledger if k.startswith(pid + "/")]:
             del ledger[k]
         for oid, o in run.obligations.items():
-            ledger[oid] = o["status"]
+            ledger[oid] = {"status": o["status"], "sha": o.get("sha")}
     os.makedirs(os.path.dirname(LEDGER), exist_ok=True)
     with open(LEDGER, "w") as fh:
         json.dump(dict(sorted(ledger.items())), fh, indent=0)
